@@ -16,6 +16,7 @@ type concGen struct {
 	g     int // goroutines of the concurrent phase
 	k     int // block ids 1..k
 	ops   []cOp
+	cbs   []int // store 2: OnPut callbacks registered before the goroutines start (1 = once-only)
 }
 
 func (g *concGen) add(tid, phase, kind int, ids ...int) {
@@ -99,7 +100,26 @@ func concScenarios(store int) []string {
 	if store == 0 {
 		return []string{"dup-puts", "keys-while-putting", "keys-while-putting", "finalize-vs-readers", "read-your-writes", "mixed"}
 	}
+	if store == 2 {
+		return []string{"dup-puts", "finalize-vs-readers", "read-your-writes", "mixed", "deferred-callbacks", "deferred-callbacks"}
+	}
 	return []string{"dup-puts", "finalize-vs-readers", "read-your-writes", "mixed"}
+}
+
+// callbacks draws n OnPut callbacks; with mixed, at least one once-only and one persistent one.
+func (g *concGen) callbacks(n int, mixed bool) {
+	for i := 0; i < n; i++ {
+		once := 0
+		if g.r.Bool() {
+			once = 1
+		}
+		g.cbs = append(g.cbs, once)
+	}
+	if mixed && n >= 2 {
+		i := g.r.Intn(n)
+		g.cbs[i] = 1
+		g.cbs[(i+1+g.r.Intn(n-1))%n] = 0
+	}
 }
 
 func genConcWorkload(r *RNG, thorough bool) (concWork, string, int) {
@@ -238,6 +258,31 @@ func genConcWorkload(r *RNG, thorough bool) (concWork, string, int) {
 			}
 		}
 		g.tail(g.readKinds())
+	case "deferred-callbacks":
+		// store 2 only: once-only and persistent OnPut callbacks are registered up front; the
+		// first Puts (while the once-only ones are still registered) run concurrently
+		g.callbacks(2+r.Intn(4), true)
+		if r.Chance(25) {
+			g.add(0, 0, cPut, g.id())
+		}
+		closer := 0
+		if r.Chance(20) {
+			closer = 1 + r.Intn(g.g)
+		}
+		for t := 1; t <= g.g; t++ {
+			n := 1 + r.Intn(4)
+			for i := 0; i < n; i++ {
+				switch {
+				case t == closer && i == n-1:
+					g.add(t, 1, cFinalize)
+				case r.Chance(85):
+					g.add(t, 1, cPut, g.id())
+				default:
+					g.add(t, 1, cHas, g.id())
+				}
+			}
+		}
+		g.tail([]int{cHas, cPut})
 	default: // mixed
 		// uniform over the kinds the store supports; the finalizing kinds take part in about
 		// a third of the workloads only (otherwise nearly every op would hit a closed store)
@@ -252,7 +297,10 @@ func genConcWorkload(r *RNG, thorough bool) (concWork, string, int) {
 		}
 		g.tail(g.kinds(false))
 	}
-	return concWork{Store: g.store, V1: g.v1, Ops: g.ops}, scen, g.g
+	if g.store == 2 && scen != "deferred-callbacks" && r.Chance(30) {
+		g.callbacks(1+r.Intn(3), false)
+	}
+	return concWork{Store: g.store, V1: g.v1, Ops: g.ops, Cbs: g.cbs}, scen, g.g
 }
 
 func init() {
@@ -309,6 +357,12 @@ func init() {
 			}
 			if r.IndexOK != 1 {
 				c.Count("observed/index-bad")
+			}
+			if len(w.Cbs) > 0 {
+				c.Count("option/onput-callbacks")
+				if r.CbBad && r.Crashed == 0 {
+					c.Count("observed/callback-count-wrong")
+				}
 			}
 			c.Emit("conc", concInputVal(w, r), concObsVal(r), overlap && putOK)
 		}
